@@ -1,7 +1,7 @@
 (* C14 — property theorems only (statements + [exact]); proofs in Proofs.v / Harness.v. *)
 From Coq Require Import List NArith ZArith Bool Znumtheory Lia.
 From V.Base Require Import Hex BigEndian.
-From V.C14 Require Import Model Bytes Proofs Text Harness.
+From V.C14 Require Import Model Bytes Proofs Text Curve Harness.
 Import ListNotations.
 Local Open Scope Z_scope.
 
@@ -34,6 +34,22 @@ Theorem C14_generic : forall r, 1 < r -> prime r -> forall sk alpha beta h1 h2,
   h1 mod r = h2 mod r.
 Proof. exact verify_exp_generic. Qed.
 Print Assumptions C14_generic.
+
+(* The node's group order R (bn256 Order) is prime (Base/PrimeBn256Order, Pocklington certificate): the
+   two statements above without any hypothesis on the modulus. *)
+Theorem C14_complete_bn256 : forall sk h, sk mod R <> 0 -> h mod R <> 0 ->
+  verify_exp R (pub_exp R sk) h (sign_exp R sk h) = true.
+Proof. exact (verify_exp_complete R eq_refl R_prime). Qed.
+Theorem C14_generic_bn256 : forall sk alpha beta h1 h2,
+  (alpha mod R <> sk mod R \/ beta mod R <> 0) ->
+  verify_exp R (pub_exp R sk) h1 (alpha * h1 + beta) = true ->
+  verify_exp R (pub_exp R sk) h2 (alpha * h2 + beta) = true ->
+  h1 mod R = h2 mod R.
+Proof. exact (verify_exp_generic R eq_refl R_prime). Qed.
+Theorem C14_unique_bn256 : forall sk h s,
+  verify_exp R (pub_exp R sk) h s = true <-> (s mod R = sign_exp R sk h /\ s mod R <> 0).
+Proof. exact (verify_exp_iff R eq_refl). Qed.
+Print Assumptions C14_generic_bn256.
 
 (* The same uniqueness in any three cyclic groups of order r with a bilinear, non-degenerate pairing
    (the pairing sends the pair of generators to a generator). *)
@@ -132,6 +148,25 @@ Theorem C14_hex_trailing_refuted :
   exists (s : String.string) (v : g1),
     sig_set_hex_old s = (v, false) /\ g1_wf v /\ s <> with_prefix (hex (sig_serialize v)) /\ sig_set_hex s = (G1Nil, true).
 Proof. exact hex_trailing_refuted. Qed.
+
+(* ---- the group G1 of the model: affine chord-and-tangent law on y^2 = x^3 + 3 over F_P, P prime
+   (Base/PrimeBn256Field; inversion a^(P-2) by Fermat). Closed, identity, inverses, commutative.
+   Associativity is not proved: it is the remaining gap of this layer (see props/C14.json). ---- *)
+Theorem C14_field_inverse : forall a, a mod P <> 0 mod P -> (finv a * a) mod P = 1 mod P.
+Proof. exact finv_spec. Qed.
+Theorem C14_g1_add_closed : forall a b, g1_pt a -> g1_pt b -> g1_pt (g1_add a b).
+Proof. exact add_closed. Qed.
+Theorem C14_g1_neg_closed : forall a, g1_pt a -> g1_pt (g1_neg a).
+Proof. exact neg_closed. Qed.
+Theorem C14_g1_identity : forall a, g1_add G1Inf a = a /\ g1_add a G1Inf = a.
+Proof. intro a. split; [apply add_inf_l | apply add_inf_r]. Qed.
+Theorem C14_g1_inverse : forall a, g1_pt a -> g1_add a (g1_neg a) = G1Inf.
+Proof. exact add_neg. Qed.
+Theorem C14_g1_comm : forall a b, g1_pt a -> g1_pt b -> g1_add a b = g1_add b a.
+Proof. exact add_comm. Qed.
+Theorem C14_g1_mul_closed : forall k a, g1_pt a -> g1_pt (g1_mul_nat k a).
+Proof. exact mul_nat_closed. Qed.
+Print Assumptions C14_g1_comm.
 
 (* ---- the code before the fixes: the property was false (witnesses re-checked by the kernel) ---- *)
 Theorem C14_overlong_refuted :
